@@ -147,7 +147,12 @@ impl<'a> Name<'a> {
                     return Ok(());
                 }
                 std::collections::hash_map::Entry::Vacant(e) => {
-                    e.insert(out.stream_position()? as usize);
+                    // a compression pointer has 14 bits: later offsets cannot be referenced
+                    let label_position = out.stream_position()? as usize;
+                    if label_position <= (!POINTER_MASK_U16) as usize {
+                        e.insert(label_position);
+                    }
+
                     out.write_all(&[label.len() as u8])?;
                     out.write_all(&label.data)?;
                 }
